@@ -173,6 +173,17 @@ def check(P, rep):
             okm = all(variant_name(a) == 'None' or (variant_name(a) == 'Some' and core(a[3][0]) in (('self',), minter)) or core(a) == minter for a in alts(m))
             rep.check(okm, 'C11.R6', 'deploy_interchain_token:initial-minter', 'the constructor\'s minter is none, the service (while it mints the supply) or the minter parameter', esite(g, d), fmt(m)[:200])
             rep.check(len(args) == 4 and core(args[3]) == meta, 'C11.R6', 'deploy_interchain_token:metadata', 'the requested metadata is passed to the token constructor', esite(g, d))
+        # completeness ("any combination of initial supply and minter"): the service-as-minter refusal exists only where the service is NOT
+        # already the initial minter, i.e. behind initial_supply <= 0 (seeded change C11-h hoisted it above the supply test)
+        nonpos = guard_sel(g, lambda c_: c_[0] == 'cmp' and c_[1] == 'le' and core(c_[2]) == supply and const_int(core(c_[3])) == 0)
+        for gd in rejecting_edges(g):
+            c_ = gd.cond
+            txt_ = repr(c_)
+            if c_[0] == 'cmp' and "('self',)" in txt_ and "('param', 'minter')" in txt_:
+                ok, _, w = mg(g, [(gd.ctx.id, gd.bb)], (), edges(nonpos)) if nonpos else (False, None, None)
+                rep.check(ok, 'C11.R6', 'deploy_interchain_token:self-minter-refusal-only-without-supply',
+                          'the minter == service refusal is must-guarded by initial_supply <= 0 (with a positive supply every minter, the service included, is accepted)',
+                          site(g, gd.ctx, gd.bb), fmt(c_)[:200], w)
         adds = [e for e in state_effects(g) if e.kind == 'xcall' and e.method == 'add_minter']
         # whenever a minter is designated, every successful deployment gives it minting rights: either the constructor receives
         # Some(minter) (the definition of that alternative lies on the path) or add_minter(minter) is called afterwards
